@@ -78,15 +78,24 @@ BASE_SOURCES = [
 ]
 
 
+# compiler output that needs a compile flag: modules that suspend at top level (asyncio REPL, IPython; 3.8+)
+TOP_LEVEL_AWAIT_SOURCES = ["await x", "async for i in y: pass", "async with a: pass", "z = [i async for i in y]", "async for i in y:\n    await i",
+                           "x = 1\nasync for i in y: x += i"]
+
+
 def base_codes():
     import hcommon as H
     import warnings
+    import ast
     out = []
-    for i, src in enumerate(BASE_SOURCES):
+    srcs = [(s_, 0) for s_ in BASE_SOURCES]
+    if hasattr(ast, "PyCF_ALLOW_TOP_LEVEL_AWAIT"):
+        srcs += [(s_, ast.PyCF_ALLOW_TOP_LEVEL_AWAIT) for s_ in TOP_LEVEL_AWAIT_SOURCES]
+    for i, (src, cflags) in enumerate(srcs):
         try:
             with warnings.catch_warnings():
                 warnings.simplefilter("ignore")
-                c = compile(src, "<base%d>" % i, "exec", dont_inherit=True)
+                c = compile(src, "<base%d>" % i, "exec", flags=cflags, dont_inherit=True)
         except SyntaxError:
             continue
         for j, (x, _d) in enumerate(H.iter_code(c)):
@@ -299,6 +308,7 @@ def run(shard):
         bases = base_codes()
         alts = []
         for bid, src, c in bases:
+            alts.append((bid, src, c, "unaltered", {}))        # the compiler's own header: rejected or preserved, like any other
             for bit in range(32):
                 alts.append((bid, src, c, "flag^%#x" % (1 << bit), {"co_flags": c.co_flags ^ (1 << bit)}))
             for f in ["co_argcount", "co_kwonlyargcount", "co_nlocals"] + (["co_posonlyargcount"] if H.PY >= (3, 8) else []):
@@ -313,7 +323,7 @@ def run(shard):
         rng = H.rng_for(shard["seed"], "c11-headers")
         # alterations that clear or set the function flags (alone, as a pair, with the kind flags) are always included;
         # the rest is a seeded sample
-        always = [x for x in alts if x[3] in ("flag^0x1", "flag^0x2", "flag^0x3", "flag^0x10", "flag^0x40", "flag+0xc", "flag^0xc")]
+        always = [x for x in alts if x[3] in ("unaltered", "flag^0x1", "flag^0x2", "flag^0x3", "flag^0x10", "flag^0x40", "flag+0xc", "flag^0xc")]
         rest = [x for x in alts if x not in always]
         rng.shuffle(rest)
         alts = always + rest[:max(0, shard.get("n_headers", 1500) - len(always))]
